@@ -6,7 +6,7 @@ EXTENDS Inspection, Instances
 FlowNodes ==
   { N0("Src0"), NC("Src", "value", 6), N0("Mul"), N0("MulDef"), NK("Probe", "factor", ""),
     NK("Rename", "factor", "addend"), NK("Rename", "factor", "factor"), NK("Delete", "factor", ""),
-    NK("Template", "factor", "a"), NK("Template", "addend", "a"), N0("Add"), NC("MulDef", "factor", NullCfg), NK("CtxBind", "", "factor"), NS("SweepSrc", <<1, 2>>), N0("Sum"),
+    NK("Template", "factor", "a"), NK("Template", "addend", "a"), N0("Add"), NC("MulDef", "factor", NullCfg), NK("CtxBind", "", "factor"), NK("FitM", "", "factor"), NS("SweepSrc", <<1, 2>>), N0("Sum"),
     NK("SweepSrcCtx", "t_values", ""), NK("SliceProbe", "factor", "") }
 FlowInitCtxs ==
   {[k \in Keys |-> IF k = "t_values" THEN tv ELSE IF k \in S THEN Num(CtxVal(k)) ELSE Absent] :
